@@ -61,8 +61,8 @@ View == <<n, content, cit, must, taint, vals, index, sh, mit, ok>>
 Has(vs, i) == i \in DOMAIN vs
 Rd(vs, i) == IF Has(vs, i) THEN vs[i] ELSE 0            \* Float64At / ConstAt / AT_
 IsNullAt(vs, i) == ~Has(vs, i) \/ vs[i] = NilPtr \/ vs[i] = 0    \* GET().nullScalar()
-Put(f, i, v) == [k \in (DOMAIN f) \cup {i} |-> IF k = i THEN v ELSE f[k]]
-Drop(f, D) == [k \in (DOMAIN f) \ D |-> f[k]]
+Put(f, i, v) == TLCEval([k \in (DOMAIN f) \cup {i} |-> IF k = i THEN v ELSE f[k]])
+Drop(f, D) == TLCEval([k \in (DOMAIN f) \ D |-> f[k]])
 HasNil(vs) == \E k \in DOMAIN vs : vs[k] = NilPtr
 
 NoSnap == [stale |-> FALSE, keys |-> {}]
@@ -155,9 +155,9 @@ Swap(o, i, j) ==
          f  == [k \in Idx(n[o]) |-> IF k = i THEN j ELSE IF k = j THEN i ELSE k]
          D  == IF SwapBug THEN DOMAIN vs \cup {i, j}
                ELSE (DOMAIN vs \ {i, j}) \cup (IF Has(vs, j) THEN {i} ELSE {}) \cup (IF Has(vs, i) THEN {j} ELSE {})
-         nv == [k \in D |-> IF k = i THEN (IF Has(vs, j) THEN vs[j] ELSE NilPtr)
-                            ELSE IF k = j THEN (IF Has(vs, i) THEN vs[i] ELSE NilPtr)
-                            ELSE vs[k]]
+         nv == TLCEval([k \in D |-> IF k = i THEN (IF Has(vs, j) THEN vs[j] ELSE NilPtr)
+                                    ELSE IF k = j THEN (IF Has(vs, i) THEN vs[i] ELSE NilPtr)
+                                    ELSE vs[k]])
          ni == IF SwapBug THEN index[o]
                ELSE index[o] \cup (IF Has(vs, j) THEN {i} ELSE {}) \cup (IF Has(vs, i) THEN {j} ELSE {})
      IN StructStep(o, CSwap(content[o], i, j), f, FALSE, nv, ni, Rename(sh, o, f, DOMAIN vs))
@@ -169,7 +169,7 @@ Reverse(o) ==
   /\ "reverse" \in Ops /\ Alive(o)
   /\ LET m  == n[o]
          vs == vals[o]
-         nv == [k \in {m - 1 - i : i \in DOMAIN vs} |-> vs[m - 1 - k]]
+         nv == TLCEval([k \in {m - 1 - i : i \in DOMAIN vs} |-> vs[m - 1 - k]])
          f  == [k \in Idx(m) |-> m - 1 - k]
      IN StructStep(o, CReverse(content[o], m), f, FALSE, nv, DOMAIN nv, Rename(sh, o, f, DOMAIN vs))
   /\ mit' = MarkStale(o, index[o])
@@ -195,12 +195,12 @@ RECURSIVE PermMap(_, _, _, _)           \* where does the cell of old position k
 PermMap(f, pi, i, m) ==
   IF i >= m THEN f
   ELSE IF pi[i+1] > i
-       THEN PermMap([k \in DOMAIN f |-> IF f[k] = i THEN pi[i+1] ELSE IF f[k] = pi[i+1] THEN i ELSE f[k]], pi, i + 1, m)
+       THEN PermMap(TLCEval([k \in DOMAIN f |-> IF f[k] = i THEN pi[i+1] ELSE IF f[k] = pi[i+1] THEN i ELSE f[k]]), pi, i + 1, m)
        ELSE PermMap(f, pi, i + 1, m)
 Permute(o, pi) ==
   /\ "permute" \in Ops /\ Alive(o)
   /\ LET m == n[o]
-         f == PermMap([k \in Idx(m) |-> k], pi, 0, m)
+         f == PermMap(TLCEval([k \in Idx(m) |-> k]), pi, 0, m)
      IN StructStep(o, CPermute(content[o], pi, m), CPermuteMap(pi, m), FALSE, PermVals(vals[o], pi, 0, m), Idx(m),
                    Rename(sh, o, f, DOMAIN vals[o]))
   /\ mit' = MarkStale(o, index[o])
@@ -220,8 +220,8 @@ Sort(o, rev) ==
          keyOf(t) == IF srt[t][2] > 0 THEN (t - 1) + ip ELSE (t - 1) + inn
          nk   == {keyOf(t) : t \in 1..L}
          last(key) == CHOOSE t \in 1..L : keyOf(t) = key /\ \A t2 \in 1..L : keyOf(t2) = key => t2 <= t
-         nv   == [key \in nk |-> srt[last(key)][2]]
-         ren  == [k \in KeysOfSeq(srt) |-> keyOf(CHOOSE t \in 1..L : srt[t][1] = k)]
+         nv   == TLCEval([key \in nk |-> srt[last(key)][2]])
+         ren  == TLCEval([k \in KeysOfSeq(srt) |-> keyOf(CHOOSE t \in 1..L : srt[t][1] = k)])
      IN /\ StructStep(o, CSort(content[o], m, rev), CSortMap(content[o], m, rev), TRUE, nv, nk,
                       Rename(sh, o, ren, DOMAIN ren))
         /\ mit' = MarkStale(o, wk.index)
@@ -286,7 +286,7 @@ AppendVector(w) ==
   /\ "append" \in Ops /\ Alive(1) /\ n[1] + Len(w) <= MaxN /\ ~HasNil(vals[1])
   /\ LET m  == n[1]
          K  == {m + t - 1 : t \in {tt \in 1..Len(w) : w[tt] # 0}}
-         nv == [k \in DOMAIN vals[1] \cup K |-> IF k \in K THEN w[k - m + 1] ELSE vals[1][k]]
+         nv == TLCEval([k \in DOMAIN vals[1] \cup K |-> IF k \in K THEN w[k - m + 1] ELSE vals[1][k]])
      IN ReplaceStep(1, m + Len(w), CAppend(content[1], m, w), nv, index[1] \cup K)
   /\ cit' = KillIters(cit, {1}) /\ mit' = KillMits(mit, {1}) /\ ok' = TRUE
   /\ Record([Ev("appendv", 1) EXCEPT !.w = w])
@@ -299,7 +299,7 @@ AppendVector(w) ==
 KnownDeviation_DenseOperandStop(name, c, w, m) ==
   LET Z == {i \in Idx(m) : c[i] = 0 /\ w[i] = 0}
       stop == IF Z = {} THEN m ELSE Min(Z)
-  IN [i \in Idx(m) |-> IF i < stop THEN AOp(name, c[i], w[i]) ELSE c[i]]
+  IN TLCEval([i \in Idx(m) |-> IF i < stop THEN AOp(name, c[i], w[i]) ELSE c[i]])
 (* element-wise arithmetic, receiver = first operand.  Joint iterators walk the receiver completely  *)
 (* (deleting null entries on the way) merged with the operand's non-zero positions; AT creates what  *)
 (* is missing; VmulV / VmulS `continue` where the receiver has no entry; V{add,sub}S touch every i.   *)
@@ -312,8 +312,8 @@ Arith(name, o, wseq, x) ==
          K  == KeysOfSeq(wk.seq)
          T  == IF name \in {"vaddv", "vsubv", "set"} THEN K \cup NZ(w) ELSE K
          nv == IF name \in {"vadds", "vsubs"}
-               THEN [k \in Idx(m) |-> AOp(name, Rd(vals[o], k), x)]
-               ELSE [k \in DOMAIN wk.vals \cup T |-> IF k \in T THEN AOp(name, Rd(wk.vals, k), w[k]) ELSE wk.vals[k]]
+               THEN TLCEval([k \in Idx(m) |-> AOp(name, Rd(vals[o], k), x)])
+               ELSE TLCEval([k \in DOMAIN wk.vals \cup T |-> IF k \in T THEN AOp(name, Rd(wk.vals, k), w[k]) ELSE wk.vals[k]])
          ni == IF name \in {"vadds", "vsubs"} THEN index[o] \cup (Idx(m) \ DOMAIN vals[o])
                ELSE wk.index \cup (T \ DOMAIN wk.vals)
          S  == IF name \in {"vadds", "vsubs"} THEN sh ELSE Prune(sh, o, DOMAIN wk.vals)
